@@ -193,7 +193,7 @@ def convert_and_check(ctx, r, B, R, labels, vt, dtype, after=''):
 
 def raw_order(m):
     """dict back-end only: the insertion order of `_adj` and of every neighbourhood dict (what `pyBQM.change_vartype` iterates over)"""
-    return ';'.join(f'{lab(u)}:' + ','.join(lab(v) for v in nu) for u, nu in m.data._adj.items()) or '-'
+    return ';'.join(f'{lab(u)}>' + ','.join(lab(v) for v in nu) for u, nu in m.data._adj.items()) or '-'
 
 
 def case_history_convert(ctx, r, B):
@@ -382,7 +382,43 @@ def case_view_history(ctx, r, B):
         else:
             o = r.choice(['m', 'm', 'hv', 'hv', 'm.spin', 'm.binary'])
             kind = r.choice(['addlin', 'addlin', 'addquad', 'addquad', 'addquad', 'setlin', 'setquad', 'addvar', 'setoff', 'rmint', 'rmvar',
-                             'cv', 'getlin', 'getquad', 'getoff', 'energies', 'toqubo', 'toising', 'hvcv'])
+                             'cv', 'getlin', 'getquad', 'getoff', 'energies', 'toqubo', 'toising', 'hvcv', 'relabel', 'relabel'])
+        if kind == 'relabel':
+            # `relabel_variables` on the base object: one `(old, new)` step of the safe sub-mappings per model line
+            if not ref.vars:
+                continue
+            cur = list(ref.vars)
+            free = [l for l in LABELS if l not in cur]
+            if len(cur) >= 2 and (r.random() < .3 or not free):
+                a_, b_ = r.sample(cur, 2)
+                mp = {a_: b_, b_: a_}
+            else:
+                k_ = r.randint(1, min(2, len(cur), len(free)))
+                mp = dict(zip(r.sample(cur, k_), r.sample(free, k_)))
+            call = f'm.relabel_variables({mp!r})'
+            steps = [(a_, b_) for sub in dimod.utilities.iter_safe_relabels(mp, cur) for a_, b_ in sub.items()]
+            exec(call, R.ns); hist.append(call)
+            ren = lambda v: mp.get(v, v)  # noqa
+            P2 = GP()
+            for k_, c_ in ref.P.t.items():
+                P2.add(tuple(ren(v) for v in k_), c_)
+            ref.P = P2
+            ref.vars = [ren(v) for v in ref.vars]
+            ref.inter = {frozenset(ren(v) for v in e) for e in ref.inter}
+            pool = [ren(v) for v in pool]
+            site = 'BQM.relabel_variables'
+            ctx.tick(site + (' (swap)' if set(mp) == set(mp.values()) else ''))
+            ctx.case((site, tuple(hist)), nontrivial=True)
+            Pd = GP.of_model(m)
+            if Pd.nz() != ref.P.nz() or set(m.variables) != set(ref.vars):
+                ctx.fail('property', site, 'in a history with views and conversions', f'after {call}: data holds {Pd.nz()}, expected {ref.P.nz()}',
+                         repro=repro(expected_state_src()))
+                return
+            for j_, (a_, b_) in enumerate(steps):
+                lines.append(f'lb {ref.vt} relabel {lab(a_)} {lab(b_)}')
+                expects.append('ok ' + state_line(m) if j_ == len(steps) - 1 else None)
+                metas.append((site, 'one (old, new) step'))
+            continue
         if kind == 'hvcv':
             # re-type the held view object itself: from now on it reads/writes as a view of `target`
             target = r.choice(['SPIN', 'BINARY'])
@@ -563,6 +599,10 @@ def case_view_history(ctx, r, B):
         lines.append(line)
         expects.append(('ok ' if raised is None else f'err {raised} ') + state_line(m))
         metas.append((site, ic))
+    if dtype == 'object':
+        # the dict model is in the same *insertion order* as `_adj` (what `pyBQM.change_vartype` and `relabel_variables` iterate over)
+        lines.append(f'lb {ref.vt} order'); expects.append('ok ' + raw_order(m)); metas.append(('pyBQM._adj insertion order', 'after a history'))
+        ctx.tick('dict order compared')
     B.items.append((lines, expects, metas, list(R.lines[4:]) + hist))
 
 
@@ -578,7 +618,7 @@ def flush_histories(ctx, B):
     for hl, he, hm, script in hs:
         for j in range(len(hl)):
             g = got[i + j] if i + j < len(got) else 'MISSING'
-            if g != he[j]:
+            if he[j] is not None and g != he[j]:
                 ctx.fail('correspondence', hm[j][0] + ' vs VartypeView/pyBQM model', hm[j][1],
                          f'line `{hl[j]}`: implementation `{he[j]}` model `{g}`', detail=dict(history=script, lines=hl[:j + 1]))
                 break
